@@ -623,9 +623,7 @@ class TranscriptInterval(AbstractFeatureInterval):
         if self.cds.chunk_relative_location == self.chunk_relative_location:
             return EmptyLocation()
         cds_start_on_transcript = self.cds_pos_to_transcript(0)
-        return self.chunk_relative_location.relative_interval_to_parent_location(
-            0, cds_start_on_transcript, Strand.PLUS
-        )
+        return self._transcript_interval_to_chunk_relative_location(0, cds_start_on_transcript)
 
     def get_3p_interval(self) -> Location:
         """Returns the 3' UTR as a location, if it exists.
@@ -637,13 +635,24 @@ class TranscriptInterval(AbstractFeatureInterval):
         # handle the edge case where the CDS is full length
         if self.cds.chunk_relative_location == self.chunk_relative_location:
             return EmptyLocation()
-        cds_inclusive_end_on_transcript = self.cds_pos_to_transcript(len(self.cds.chunk_relative_location) - 1)
+        cds_inclusive_end_on_transcript = self.cds_pos_to_transcript(len(self.cds.chromosome_location) - 1)
         # handle the edge case where the CDS reaches the 3' end of the transcript
-        if cds_inclusive_end_on_transcript + 1 == len(self._location):
+        if cds_inclusive_end_on_transcript + 1 == len(self):
             return EmptyLocation()
-        return self.chunk_relative_location.relative_interval_to_parent_location(
-            cds_inclusive_end_on_transcript + 1, len(self._location), Strand.PLUS
+        return self._transcript_interval_to_chunk_relative_location(cds_inclusive_end_on_transcript + 1, len(self))
+
+    def _transcript_interval_to_chunk_relative_location(self, transcript_start: int, transcript_end: int) -> Location:
+        """A stretch of this transcript, given in transcript coordinates, as a Location. Transcript coordinates count
+        along the whole transcript; on a sequence chunk the stretch is worked out on the chromosome and the part
+        of it that lies on the chunk is returned in chunk-relative coordinates (nothing of it: EmptyLocation)."""
+        if not self.is_chunk_relative:
+            return self.chunk_relative_location.relative_interval_to_parent_location(
+                transcript_start, transcript_end, Strand.PLUS
+            )
+        chromosome_stretch = self.chromosome_location.relative_interval_to_parent_location(
+            transcript_start, transcript_end, Strand.PLUS
         )
+        return self.liftover_location_to_seq_chunk_parent(chromosome_stretch, self._parent_or_seq_chunk_parent)
 
     @lru_cache(maxsize=1)
     def get_transcript_sequence(self) -> Sequence:
